@@ -84,6 +84,9 @@ Eval vm_compute in (show prog_step "mjINT_IMPLICIT").
             en = (en & ~(1 << 20)) | (1 << 21)
             if i % 2 == 0:
                 en = (en & ~(15 << 14)) | (rng.choice([1, 3, 7, 13]) << 14)
+        if i % 6 == 4:
+            # history buffers (mjSTATE_HISTORY is part of the integration state): interval / delayed / interpolating sensors, delayed controls
+            en = (en & ~((1 << 20) | (1 << 21))) | (1 << 22)
         for recv in range(5):
             integ = rng.choice([0, 1, 2, 3])
             D = {0: Deuler, 1: Drk4, 2: Dimpl, 3: Dimpl}[integ]
@@ -126,7 +129,7 @@ Eval vm_compute in (show prog_step "mjINT_IMPLICIT").
     ctx.cov["distinct_nontrivial"] = len(nontriv)
     ctx.cov["rule"] = ("frame validation: every stage of the table x random mjgen models, garbage outside the read set, must-fields compared and nothing outside must+may written; "
                        "(solver and cone drawn per model: default/PGS/CG/Newton, pyramidal/elliptic) end-to-end: random models x receivers {copyData, copyState into fresh / reset / used, setState into used} x {forward, step, 3 steps, forward+inverse} x integrators, "
-                       "comparing exactly the fields the Coq analysis marks as defined (+ sensordata, energy); non-trivial = distinct case that ran")
+                       "comparing exactly the fields the Coq analysis marks as defined (+ sensordata, energy); every sixth model carries history buffers (interval / delayed / interpolating sensors, delayed controls: mjSTATE_HISTORY); non-trivial = distinct case that ran")
     ctx.cov["samples"] = [lines[0][:200], lines[-1][:200]]
     ctx.cov["translator_inputs"] = ["src/engine/engine_forward.c", "include/mujoco/mjtype.h", "harness/c01_table.json"]
     ctx.cov["explanation"] = "noninterference theorem over regenerated programs and the frame table; table and end-to-end determinism validated on %d implementation runs" % len(lines)
